@@ -493,9 +493,9 @@ func main() {
 	hx.Main(func(h *hx.H) {
 		leafFamily(h)
 		exhaustiveFamily(h)
-		n := 3000
+		n := 20000
 		if h.Thorough() {
-			n = 150000
+			n = 200000
 		}
 		for i := 0; i < n; i++ {
 			h.Case(randomCase)
